@@ -46,6 +46,9 @@ class Module:
             return "<?>"
 
 
+from . import cover as _cover
+
+
 class FuncInfo:
     def __init__(self, module: Module, cls: Optional["ClassInfo"], node: ast.FunctionDef):
         self.module = module
@@ -86,6 +89,7 @@ class FuncInfo:
 
     def loc(self, node: Optional[ast.AST] = None) -> str:
         n = node if node is not None else self.node
+        _cover.anchor(self)
         return f"{self.module.relpath}:{getattr(n, 'lineno', 0)}"
 
     def __repr__(self):
@@ -345,10 +349,12 @@ class Model:
             f = self.find_method(self.classes[head], tail)
             if f is None:
                 raise AnalysisError(f"anchor method {qual} not found")
+            _cover.anchor(f)
             return f
         m = self.modules.get(self.pkg + "." + head) or self.modules.get(head)
         if m is None or tail not in m.funcs:
             raise AnalysisError(f"anchor function {qual} not found")
+        _cover.anchor(m.funcs[tail])
         return m.funcs[tail]
 
     def all_functions(self) -> List[FuncInfo]:
